@@ -124,7 +124,8 @@ def make_factor(jf, conc, rng):
     return DiscreteFactor([conc.vn[v] for v in scope], card, vals, state_names={conc.vn[v]: conc.names(v) for v in scope})
 
 
-def build_mn(inst, conc, rng):
+def build_mn(inst, conc, rng, scale=1.0):
+    """scale: every factor multiplied by this constant (the normalised distribution is that of the instance)"""
     from pgmpy.models import MarkovNetwork
     from .concretise import shuffled
     m = MarkovNetwork()
@@ -140,6 +141,8 @@ def build_mn(inst, conc, rng):
             m.add_factors(made[key])
         else:
             made[key] = make_factor(jf, conc, rng)
+            if scale != 1.0:
+                made[key].values = made[key].values * scale
             m.add_factors(made[key])
     return m
 
